@@ -459,6 +459,7 @@ int simSbrkForeign(unsigned long pages)
 	nSbrkForeign++;
 	return 1;
 }
+unsigned long simArenaCap(void) { planLoad(); return P.sbrkCap; }
 char *simArenaBase(void) { return arenaBase; }
 char *simArenaBrk(void) { return arenaBrk; }
 
